@@ -8,7 +8,7 @@ import fs from "node:fs";
 import { Reporter, TIER, SEED, sha, mapLimit } from "./common.mjs";
 import { BIN, VERIF } from "./runtime.mjs";
 import { DEFAULT_SETTINGS } from "./compile.mjs";
-import { basePrograms, renderLayout } from "./c09.mjs";
+import { basePrograms, renderLayout, valueRouteLayouts, starGraphLayouts } from "./c09.mjs";
 import { familyPrograms } from "./cases.mjs";
 import { renderProgram } from "./spec.mjs";
 
@@ -133,6 +133,27 @@ function projects() {
       "b.ts": "export type Same = { from: 'b' };",
     },
   });
+  // values and types that reach the entry file through export-star barrels and re-converging star graphs: the
+  // moment at which a lazily loaded module enters the cache differs between registration orders
+  for (const l of valueRouteLayouts().filter((x) => /export-star-barrel:(object|array)$|named-reexport:object$|default-expression:object$/.test(x.name))) out.push({ name: l.name, files: l.files });
+  for (const l of starGraphLayouts().filter((_, i) => i % 5 === 2)) out.push({ name: l.name, files: l.files });
+  out.push({
+    name: "value-and-type-through-one-barrel",
+    files: {
+      "entry.ts": 'import { val, T } from "./b";\nexport const Parsers = parse.buildParsers<{ A: typeof val, B: T }>();',
+      "b.ts": 'export * from "./c";',
+      "c.ts": 'export const val = 1 as const;\nexport type T = { t: string };',
+    },
+  });
+  out.push({
+    name: "star-and-named-source-of-one-value",
+    files: {
+      "entry.ts": 'import { val } from "./b";\nexport const Parsers = parse.buildParsers<{ A: typeof val }>();',
+      "b.ts": 'export * from "./c";\nimport { val } from "./d";\nexport { val };',
+      "c.ts": 'export const val = "from-c" as const;',
+      "d.ts": 'export const val = "from-d" as const;',
+    },
+  });
   return out;
 }
 
@@ -198,7 +219,7 @@ export async function run() {
       evaluations: stats.runs,
       distinct_nontrivial: Object.keys(distinctPerProject).length,
       // (per-project counts are listed for the multi-file projects only)
-      rule: "every single-file program of the type families F1 depth 1, F1x, F2, F3, F4 (lazy order, 6 owned hash seeds each; thorough: all seeds) and 13 multi-file projects (C09 layouts in 5 import styles, 14 interdependent declarations referenced in scrambled order, several independent errors, typeof of a namespace with several unsupported exports, export-star aggregation and conflict) × pre-registration orders (" + (TIER === "thorough" ? "all n! orders of <=4 files" : "a sixth of the n! orders") + " + purely lazy + dependencies-only in both orders) × fresh OS processes × std HashMap seeds owned through an LD_PRELOAD getrandom shim (" + seeds.length + " seeds on the lazy order, 2 per other order, plus one run with the system's own randomness); oracle: all runs of one project give byte-identical code and identical serialised diagnostics (both entry points). distinct_nontrivial = number of projects",
+      rule: "every single-file program of the type families F1 depth 1, F1x, F2, F3, F4 (lazy order, 6 owned hash seeds each; thorough: all seeds) and 26 multi-file projects (values and types through export-star barrels, re-converging star graphs, C09 layouts in 5 import styles, 14 interdependent declarations referenced in scrambled order, several independent errors, typeof of a namespace with several unsupported exports, export-star aggregation and conflict) × pre-registration orders (" + (TIER === "thorough" ? "all n! orders of <=4 files" : "a sixth of the n! orders") + " + purely lazy + dependencies-only in both orders) × fresh OS processes × std HashMap seeds owned through an LD_PRELOAD getrandom shim (" + seeds.length + " seeds on the lazy order, 2 per other order, plus one run with the system's own randomness); oracle: all runs of one project give byte-identical code and identical serialised diagnostics (both entry points). distinct_nontrivial = number of projects",
       samples,
       exhaustive: false,
       projects: stats.projects,
